@@ -107,7 +107,35 @@ func (t *Taint) markMem(addr ssa.Value) {
 		case *ssa.MakeInterface:
 			v = x.X
 		case *ssa.UnOp:
-			// pointer loaded from somewhere: taint the pointer's pointee type fields conservatively is not possible; stop
+			// pointer loaded out of a local container (e.g. ranging over
+			// []*T{&a, &b}): the store may hit any local whose address was
+			// put into that container
+			if x.Op == token.MUL {
+				if cont := baseAlloc(x.X); cont != nil {
+					var walk func(v ssa.Value, depth int)
+					walk = func(v ssa.Value, depth int) {
+						if depth > 4 || v.Referrers() == nil {
+							return
+						}
+						for _, ref := range *v.Referrers() {
+							switch y := ref.(type) {
+							case *ssa.IndexAddr:
+								walk(y, depth+1)
+							case *ssa.FieldAddr:
+								walk(y, depth+1)
+							case *ssa.Slice:
+								walk(y, depth+1)
+							case *ssa.Store:
+								if al, ok := y.Val.(*ssa.Alloc); ok && y.Addr == v && !t.allocs[al] {
+									t.allocs[al] = true
+									t.changed = true
+								}
+							}
+						}
+					}
+					walk(cont, 0)
+				}
+			}
 			return
 		default:
 			return
